@@ -30,6 +30,14 @@ func (e *Env) SetGRPCHook(h func(method string, req proto.Message) (dropResponse
 	e.mu.Unlock()
 }
 
+// SetGRPCAfterHook installs a function that runs after the service handled a request and before the
+// response is returned to the caller (it may block: a response that is slow on its way back).
+func (e *Env) SetGRPCAfterHook(h func(method string, req proto.Message)) {
+	e.mu.Lock()
+	e.GRPCAfterHook = h
+	e.mu.Unlock()
+}
+
 // SetGRPCRequestHook replaces GRPCRequestHook under the Env's lock.
 func (e *Env) SetGRPCRequestHook(h func(method string, req proto.Message) (dropRequest bool)) {
 	e.mu.Lock()
@@ -51,6 +59,13 @@ func proxied[Q, R proto.Message](p *proxy, method string, ctx gocontext.Context,
 	}
 	drop := respHook != nil && respHook(method, proto.Clone(in))
 	out, err := fn(svc, ctx, in)
+	e.mu.Lock()
+	after := e.GRPCAfterHook
+	e.mu.Unlock()
+	if after != nil {
+		// the server has handled the request; the response is still on its way
+		after(method, proto.Clone(in))
+	}
 	if drop {
 		return zero, status.Error(codes.Unavailable, "response dropped (injected)")
 	}
